@@ -1080,16 +1080,18 @@ def Reachable (cfg : Config) (s : State) : Prop :=
 
 /-! ### ghost label: the records whose memory a step reads or writes -/
 
-/-- Records touched by an event performed in state `s` (dll operations touch the neighbours of
-    the element: over-approximated by the whole list the element is on). -/
+/-- Records touched by an event of cv.c performed in state `s` (dll operations touch the neighbours
+    of the element: over-approximated by the whole list the element is on).  Foreign accesses and
+    the initialisations by nsync_waiter_new_ / nsync_wait_n are code of other layers: `[]`. -/
 def touches (s : State) : Event → List Rid
-  | .recLd t site r _ =>
+  | .recLd t site r obs =>
     match site, (s.thr t).loc with
     | .wCmp, .wCmp => r :: s.queue           -- possible nsync_dll_remove_
     | .deqLd, .nLocked =>
-      match (s.recs r).stat with
-      | .listed u => r :: (s.thr u).list     -- F3: removal from the waker's list
-      | _ => r :: s.queue
+      if obs = 0 then [r]                    -- `waiting == 0`: no list operation
+      else match (s.recs r).stat with
+        | .listed u => r :: (s.thr u).list   -- F3: removal from the waker's list
+        | _ => r :: s.queue
     | _, _ => [r]
   | .recSt t site r _ _ =>
     match site with
@@ -1125,7 +1127,6 @@ def touches (s : State) : Event → List Rid
     match (s.thr t).loc, (s.thr t).cur with
     | .wwV, some (r, _) => [r]                -- reads `p_nw->sem`
     | _, _ => []
-  | .wInit _ r | .nwInit _ r => [r]
   | _ => []
 
 end NsyncVerif.Cv
